@@ -126,6 +126,18 @@ CHECKS['C05'] = dict(
     design_ref='DESIGN.md section 6, C05',
     technique='Coq proof (per-stream projection invariant; cache locality) + in-Coq correspondence with a real endpoint on a gated transport')
 
+CHECKS['C06'] = dict(
+    text='Theorems over the credit-driven producer shared by the library\'s sources, for EVERY schedule of requests, producer steps, '
+         'delivery steps and cancel (props/C06.v): delivered + queued never exceeds the credit requested so far and is a prefix of the '
+         'source in order (safety); when nothing more can happen without new credit exactly the first <credit> events have been '
+         'delivered (every element once enough credit was granted); nothing is delivered after cancel. Tied to '
+         'stream_from_generator.py / stream_from_async_generator.py / both back_pressure_publisher.py by an in-Coq correspondence at '
+         'settled points plus a per-iteration safety oracle, and through real endpoints: wire PAYLOAD elements vs credit received, '
+         'credit values forwarded exactly in both directions (incl. credit requested from inside on_subscribe). Partial: Rx operator '
+         'internals are assumed.',
+    design_ref='DESIGN.md section 6, C06',
+    technique='Coq proof (credit invariant over all schedules; quiescence characterisation) + in-Coq correspondence with the four library sources and real endpoints')
+
 NOT_YET = {}
 
 def main():
